@@ -13,7 +13,7 @@ import Irismod.Spec.C12Farm
 namespace Driver.Farm
 open Irismod Irismod.Sdk Irismod.Farm Irismod.Line
 
-def accounts : List Addr := ["A0", "A1", "A2", "A3", "A4", "collector", "farm", "fees"]
+def accounts : List Addr := ["A0", "A1", "A2", "A3", "A4", "collector", "distr", "escrow", "farm", "fees", "gov"]
 def denoms : List Denom := ["btc", "eth", "lpt-1", "lpt-2", "stake"]
 
 /-- strictly increasing by denom (what every client produces; anything else is not in the alphabet) -/
@@ -61,6 +61,20 @@ def parseOp (t : List String) : Option Op :=
   | "farm" :: "end_block" :: r => do
     let n ← natArg? r "n"
     if n = 0 then none else some (.endBlocks n)
+  | "farm" :: "cp_submit" :: r => do
+    let rpb ← parseMsgCoins (arg r "rpb")
+    let applied ← parseMsgCoins (arg r "applied")
+    let self ← parseMsgCoins (arg r "self")
+    let dep ← parseMsgCoins (arg r "deposit")
+    some (.cpSubmit (arg r "proposer") (if arg r "title" = "-" then "" else arg r "title")
+      { desc := if arg r "desc" = "-" then "" else arg r "desc", lpt := arg r "lpt", rpb := rpb.getD [],
+        applied := applied.getD [], selfBond := self.getD [] } (dep.getD []))
+  | "farm" :: "cp_pass" :: r => (natArg? r "id").map .cpPass
+  | "farm" :: "cp_reject" :: r => (natArg? r "id").map .cpReject
+  | "farm" :: "cp_faildeposit" :: r => (natArg? r "id").map .cpFailDeposit
+  | "farm" :: "fund_cp" :: r => do
+    let amt ← parseMsgCoins (arg r "amt")
+    some (.fundCp (arg r "sender") (amt.getD []))
   | _ => none
 
 /-- the state a reset line describes -/
@@ -71,13 +85,16 @@ def parseReset (r : List String) : Option State := do
   let fee ← natArg? r "fee"
   let tax ← intArg? r "tax"
   let maxcat ← natArg? r "maxcat"
+  let govmin := (natArg? r "govmin").getD 10000000
+  let govthr := (natArg? r "govthr").getD 100000
   let mut b : Bank := {}
   for a in ["A0", "A1", "A2", "A3"] do
     for d in denoms do
       b := b.setBal a d rich
   for d in denoms do
     b := b.setBal "A4" d poor
-  some { height := h, params := { fee := fee, tax := ⟨tax⟩, maxcat := maxcat }, bank := b }
+  some { height := h, params := { fee := fee, tax := ⟨tax⟩, maxcat := maxcat }, bank := b,
+         cp := { minDeposit := govmin, minFirst := govthr } }
 
 def showCoins (sep : String) (cs : CoinList) : String :=
   if cs = [] then "-" else joinWith sep (cs.map fun c => s!"{c.1}:{c.2}")
@@ -86,6 +103,13 @@ def showRule (r : Rule) : String := s!"{r.denom}:{r.total}:{r.remaining}:{r.rpb}
 
 def showList (xs : List String) : String := if xs = [] then "-" else joinWith "," (sortStrings xs)
 
+def showStatus : PStatus → String
+  | .deposit => "D" | .voting => "V" | .passed => "P" | .rejected => "R" | .failed => "F"
+
+def parseStatus : String → Option PStatus
+  | "D" => some .deposit | "V" => some .voting | "P" => some .passed | "R" => some .rejected | "F" => some .failed
+  | _ => none
+
 def showState (s : State) : String :=
   let ps := s.pools.map fun (id, p) =>
     s!"{id}|{p.creator}|{if p.desc = "" then "-" else p.desc}|{p.start}|{p.endH}|{p.last}|{if p.editable then 1 else 0}|{p.lpt}|{p.locked}|{if p.rules = [] then "-" else joinWith ";" (p.rules.map showRule)}"
@@ -93,7 +117,10 @@ def showState (s : State) : String :=
   let qs := s.queue.map fun (h, id) => s!"{if h < 0 then h + pow64 else h}|{id}"
   let bs := accounts.flatMap fun a => denoms.filterMap fun d =>
     if s.bank.balOf a d = 0 then none else some s!"{a}|{d}|{s.bank.balOf a d}"
-  s!"h={s.height} seq={s.seq} pools={showList ps} farmers={showList fs} queue={showList qs} bals={showList bs}"
+  let es := s.cp.escrow.map fun (pid, e) => s!"{pid}|{e.proposer}|{showCoins ";" e.applied}|{showCoins ";" e.selfBond}"
+  let prs := s.cp.props.map fun (pid, pr) => s!"{pid}|{showStatus pr.status}|{pr.deposit}"
+  let cps := s.cp.pool.filterMap fun (d, v) => if v = 0 then none else some s!"{d}|{v}"
+  s!"h={s.height} seq={s.seq} pools={showList ps} farmers={showList fs} queue={showList qs} bals={showList bs} esc={showList es} props={showList prs} cp={showList cps}"
 
 def parseRule (s : String) : Option Rule :=
   match s.splitOn ":" with
@@ -111,7 +138,8 @@ def items (s : String) : List String := if s = "-" then [] else s.splitOn ","
 def parseState (base : State) (t : List String) : Option State := do
   let h ← intArg? t "h"
   let seq ← natArg? t "seq"
-  let mut s : State := { base with height := h, seq := seq, pools := [], farmers := [], queue := [], bank := {}, resp := [] }
+  let mut s : State := { base with height := h, seq := seq, pools := [], farmers := [], queue := [], bank := {}, resp := [],
+                                   cp := { base.cp with pool := [], escrow := [], props := [] } }
   for e in items (arg t "pools") do
     match e.splitOn "|" with
     | [id, creator, desc, start, endH, last, ed, lpt, locked, rules] =>
@@ -143,6 +171,32 @@ def parseState (base : State) (t : List String) : Option State := do
       let v ← v.toNat?
       s := { s with bank := s.bank.setBal a d v }
     | _ => none
+  for e in items (arg t "esc") do
+    match e.splitOn "|" with
+    | [pid, proposer, applied, self] =>
+      let pid ← pid.toNat?
+      let applied ← parseCoinsSep ";" applied
+      let self ← parseCoinsSep ";" self
+      s := { s with cp := { s.cp with escrow := s.cp.escrow ++ [(pid, { proposer := proposer, applied := applied, selfBond := self })] } }
+    | _ => none
+  for e in items (arg t "props") do
+    match e.splitOn "|" with
+    | [pid, st, dep] =>
+      let pid ← pid.toNat?
+      let st ← parseStatus st
+      let dep ← dep.toNat?
+      -- the content is not observed: kept from the pre-state when the proposal is known
+      let old := AMap.get? base.cp.props pid
+      let pr : Proposal := { proposer := (old.map (·.proposer)).getD "", status := st, deposit := dep,
+                             content := (old.map (·.content)).getD default }
+      s := { s with cp := { s.cp with props := s.cp.props ++ [(pid, pr)] } }
+    | _ => none
+  for e in items (arg t "cp") do
+    match e.splitOn "|" with
+    | [d, v] =>
+      let v ← v.toNat?
+      s := { s with cp := { s.cp with pool := s.cp.pool ++ [(d, v)] } }
+    | _ => none
   let rw ← parseCoinsSep ";" (arg t "reward")
   return { s with resp := rw }
 
@@ -151,8 +205,20 @@ def showGenesis (g : FarmGenesis.Genesis) : String :=
   let ps := g.pools.map fun (id, p) =>
     s!"{id}|{p.creator}|{if p.desc = "" then "-" else p.desc}|{p.start}|{p.endH}|{p.last}|{if p.editable then 1 else 0}|{p.lpt}|{p.locked}|{if p.rules = [] then "-" else joinWith ";" (p.rules.map showRule)}"
   let fs := g.farmers.map fun ((a, id), f) => s!"{a}|{id}|{f.locked}|{showCoins ";" f.debt}"
-  s!"gseq={g.seq} gfee={g.params.fee} gtax={g.params.tax.raw} gmaxcat={g.params.maxcat} escrow=0 fiorder=ok " ++
+  let es := g.escrow.map fun (pid, e) => s!"{pid}|{e.proposer}|{showCoins ";" e.applied}|{showCoins ";" e.selfBond}"
+  s!"gseq={g.seq} gfee={g.params.fee} gtax={g.params.tax.raw} gmaxcat={g.params.maxcat} gescrow={if es = [] then "-" else joinWith "," es} fiorder=ok " ++
   s!"gpools={if ps = [] then "-" else joinWith "," ps} gfarmers={showList fs}"
+
+/-- the escrow infos of an exported document, in the document's order -/
+def parseGEscrow (s : String) : Option (List (Nat × Escrow)) :=
+  (items s).mapM fun e =>
+    match e.splitOn "|" with
+    | [pid, proposer, applied, self] => do
+      let pid ← pid.toNat?
+      let applied ← parseCoinsSep ";" applied
+      let self ← parseCoinsSep ";" self
+      some (pid, { proposer := proposer, applied := applied, selfBond := self })
+    | _ => none
 
 def validateWord (g : FarmGenesis.Genesis) : String :=
   match FarmGenesis.validateGenesis g with
@@ -180,7 +246,7 @@ def modelLine (s : State) (line : String) : State × String :=
       -- an application exports committed state: the current block is finished first
       let r := endBlocks 1 s
       if r.2 then
-        (r.1, "panic validate=- gseq=- gfee=- gtax=- gmaxcat=- escrow=- fiorder=- gpools=- gfarmers=- " ++ "reward=- " ++ showState r.1)
+        (r.1, "panic validate=- gseq=- gfee=- gtax=- gmaxcat=- gescrow=- fiorder=- gpools=- gfarmers=- " ++ "reward=- " ++ showState r.1)
       else
         let g := FarmGenesis.exportGenesis r.1
         (r.1, s!"ok validate={validateWord g} {showGenesis g} reward=- {showState r.1}")
@@ -197,6 +263,15 @@ def modelLine (s : State) (line : String) : State × String :=
     | some (.endBlocks n) =>
       let r := endBlocks n s
       (r.1, obsLine (if r.2 then "panic" else "ok") r.1 false)
+    | some (.cpPass pid) =>
+      let r := govVote s pid true
+      (if r.2 then s else r.1, obsLine (if r.2 then "panic" else if govDue s pid false then "ok" else "rej") (if r.2 then s else r.1) false)
+    | some (.cpReject pid) =>
+      let r := govVote s pid false
+      (if r.2 then s else r.1, obsLine (if r.2 then "panic" else if govDue s pid false then "ok" else "rej") (if r.2 then s else r.1) false)
+    | some (.cpFailDeposit pid) =>
+      let r := govFailDeposit s pid
+      (if r.2 then s else r.1, obsLine (if r.2 then "panic" else if govDue s pid true then "ok" else "rej") (if r.2 then s else r.1) false)
     | some op =>
       match step s op with
       | .ok s' => (s', obsLine "ok" s' (isReward op))
@@ -272,7 +347,7 @@ def runMonitorC12 (ops obs : Array String) : IO Unit := do
       match parseState pre o with
       | some post =>
         steps := steps + 1
-        for f in Spec.C12Farm.checkExport (o.head?.getD "") (arg o "validate") (arg o "escrow") (arg o "fiorder") post do
+        for f in Spec.C12Farm.checkExport (o.head?.getD "") (arg o "validate") (parseGEscrow (arg o "gescrow")) (arg o "fiorder") post do
           out.putStrLn s!"mon C12 FAIL {f} line={i+1}"; fails := fails + 1
         pre := post
       | none => out.putStrLn s!"mon C12 FAIL clause=obs-parse line={i+1}"; fails := fails + 1
